@@ -217,15 +217,23 @@ struct Flag
 };
 
 template<class S, size_t D>
-void grid_case(vh::Ctx & c, vh::Rng & r, const char * tname)
+struct Cfg
 {
-  using G = romea::core::GridIndexMapping<S, D>;
-  using Pt = typename G::PointType;
-  using Ix = typename G::CellIndexes;
-  using Itv = romea::core::Interval<S, D>;
-  const LD eps = std::numeric_limits<S>::epsilon();
-  const int NP = c.tier == "thorough" ? 100 : 60;
+  S res = 0;
+  int rkind = 0;
+  S lo[D], hi[D];
+  int kinds[D];
+  const char * gcat = "";
+  bool symmetric = false;
+  S range = 0;
+  bool trivial = false;
+  uint64_t hash = 0;
+};
 
+// draws resolution + extent + constructor form; false when the draw falls outside the quantifier
+template<class S, size_t D>
+bool gen_cfg(vh::Ctx & c, vh::Rng & r, const char * tname, Cfg<S, D> & out)
+{
   c.cat(tname);
   int rkind;
   const S res = pick_res<S>(r, rkind);
@@ -284,7 +292,7 @@ void grid_case(vh::Ctx & c, vh::Rng & r, const char * tname)
   // reference cell count in exact arithmetic, only to honour the quantifier's "at most 1e7 cells"
   LD prod = 1;
   for (size_t d = 0; d < D; ++d) {prod *= ceill((LD)hi[d] / R) - floorl((LD)lo[d] / R) + 1;}
-  if (prod > 1e7L || !(prod >= 1)) {c.skip("grid:more_than_1e7_cells"); return;}
+  if (prod > 1e7L || !(prod >= 1)) {c.skip("grid:more_than_1e7_cells"); return false;}
 
   // trivial = what the unit tests sample: unit resolution, small integer bounds
   uint64_t h = vh::hash_doubles({(double)Tr<S>::bits, (double)D, symmetric ? 1.0 : 0.0, (double)res});
@@ -295,24 +303,45 @@ void grid_case(vh::Ctx & c, vh::Rng & r, const char * tname)
       std::fabs(lo[d]) <= 3 && std::fabs(hi[d]) <= 3;
   }
   const bool trivial = (res == (S)1) && all_small_int;
-  c.distinct(h, !trivial);
 
-  // ---------------------------------------------------------------- build the real grid
-  int how = (int)r.range(0, 9);      // 0: default-construct then assign, 1: copy, else direct
-  std::unique_ptr<G> grid;
-  if (symmetric) {
-    if (how == 0) {grid.reset(new G()); *grid = G(range, res);} else if (how == 1) {
-      G tmp(range, res); grid.reset(new G(tmp));
-    } else {grid.reset(new G(range, res));}
-  } else {
-    Pt l, u;
-    for (size_t d = 0; d < D; ++d) {l[d] = lo[d]; u[d] = hi[d];}
-    Itv ext(l, u);
-    if (how == 0) {grid.reset(new G()); *grid = G(ext, res);} else if (how == 1) {
-      G tmp(ext, res); grid.reset(new G(tmp));
-    } else {grid.reset(new G(ext, res));}
-  }
-  const G & m = *grid;
+  out.res = res; out.rkind = rkind; out.gcat = gcat; out.symmetric = symmetric; out.range = range;
+  out.trivial = trivial; out.hash = h;
+  for (size_t d = 0; d < D; ++d) {out.lo[d] = lo[d]; out.hi[d] = hi[d]; out.kinds[d] = kinds[d];}
+  return true;
+}
+
+template<class S, size_t D>
+romea::core::GridIndexMapping<S, D> make_grid(const Cfg<S, D> & g)
+{
+  using G = romea::core::GridIndexMapping<S, D>;
+  if (g.symmetric) {return G(g.range, g.res);}
+  typename G::PointType l, u;
+  for (size_t d = 0; d < D; ++d) {l[d] = g.lo[d]; u[d] = g.hi[d];}
+  return G(romea::core::Interval<S, D>(l, u), g.res);
+}
+
+// all oracles of the statement, on mapping object m which is claimed to represent configuration g.
+// phase / assign_mode describe the history of the object (0 = never held another configuration).
+template<class S, size_t D>
+void check_grid(
+  vh::Ctx & c, vh::Rng & r, const char * tname, const Cfg<S, D> & g,
+  const romea::core::GridIndexMapping<S, D> & m, const char * phase, int assign_mode)
+{
+  using G = romea::core::GridIndexMapping<S, D>;
+  using Pt = typename G::PointType;
+  using Ix = typename G::CellIndexes;
+  const LD eps = std::numeric_limits<S>::epsilon();
+  const int NP = c.tier == "thorough" ? 100 : 60;
+  const S res = g.res;
+  const LD R = res;
+  const int rkind = g.rkind;
+  const S * lo = g.lo;
+  const S * hi = g.hi;
+  const int * kinds = g.kinds;
+  const char * gcat = g.gcat;
+  const bool symmetric = g.symmetric;
+  const S range = g.range;
+
   const Ix nc = m.getNumberOfCellsAlongAxes();
   {
     LD built = 1;
@@ -323,6 +352,7 @@ void grid_case(vh::Ctx & c, vh::Rng & r, const char * tname)
   auto grid_json = [&]() {
       vh::J j;
       j.s("scalar", Tr<S>::bits == 32 ? "float" : "double").f("dim", (int)D).s("category", gcat)
+      .s("object_history", phase)
       .s("ctor", symmetric ? "maximalRange" : "interval").f("res", res).f("range", range)
       .arr("lo", lo, lo + D).arr("hi", hi, hi + D);
       std::string k = "[";
@@ -364,7 +394,7 @@ void grid_case(vh::Ctx & c, vh::Rng & r, const char * tname)
   auto base_params = [&](int ax) {
       size_t d = ax >= 0 ? (size_t)ax : 0;
       return vh::Params{{"scalar_bits", (double)Tr<S>::bits}, {"dim", (double)D}, {"axis", (double)ax},
-        {"symmetric_ctor", symmetric ? 1.0 : 0.0}, {"res", (double)res}, {"lo", (double)lo[d]}, {"hi", (double)hi[d]},
+        {"symmetric_ctor", symmetric ? 1.0 : 0.0}, {"reassigned", (double)assign_mode}, {"res", (double)res}, {"lo", (double)lo[d]}, {"hi", (double)hi[d]},
         {"ncells", (double)nc[d]}, {"bound_over_res", (double)(Sc[d] / R)}, {"exact_regime", exact[d] ? 1.0 : 0.0}};
     };
 
@@ -503,6 +533,121 @@ void grid_case(vh::Ctx & c, vh::Rng & r, const char * tname)
   report("exact.spacing", "centre_spacing", sp_e);
   report("cover", "bounds_not_covered", cv_g);
   report("exact.cover", "bounds_not_covered", cv_e);
+}
+
+// light uses of an object that stop short of the full oracles (to vary what the object has
+// already served before it is assigned from / assigned to)
+template<class S, size_t D>
+void touch_indexes(const romea::core::GridIndexMapping<S, D> & m, const Cfg<S, D> & g)
+{
+  typename romea::core::GridIndexMapping<S, D>::PointType p;
+  for (size_t d = 0; d < D; ++d) {p[d] = g.lo[d];}
+  volatile size_t sink = m.computeCellIndexes(p)[0];
+  (void)sink;
+}
+template<class S, size_t D>
+void touch_centres(const romea::core::GridIndexMapping<S, D> & m)
+{
+  volatile size_t sink = m.getCellCentersPositionAlong(D - 1).size();
+  (void)sink;
+  if (m.getNumberOfCellsAlongAxes().minCoeff() >= 1 && m.getCellCentersPositionAlong(0).size() >= 1) {
+    typename romea::core::GridIndexMapping<S, D>::CellIndexes z =
+      romea::core::GridIndexMapping<S, D>::CellIndexes::Zero();
+    bool ok = true;
+    for (size_t d = 0; d < D; ++d) {ok = ok && m.getCellCentersPositionAlong(d).size() >= 1;}
+    if (ok) {volatile S s2 = m.computeCellCenterPosition(z)[0]; (void)s2;}
+  }
+}
+
+// One case = one mapping OBJECT and its history: built (directly, by copy, or default-constructed
+// then assigned), used (not at all / indexes only / centres only / all oracles), then -- in about a
+// third of the cases -- assigned a NEW configuration (from a never-queried temporary, from a source
+// whose indexes / centres were already used, from a fully checked source, by move, twice in a row,
+// or from a copy of itself) and checked again with all oracles against the new parameters.
+template<class S, size_t D>
+void grid_case(vh::Ctx & c, vh::Rng & r, const char * tname)
+{
+  using G = romea::core::GridIndexMapping<S, D>;
+  Cfg<S, D> g1;
+  if (!gen_cfg<S, D>(c, r, tname, g1)) {return;}
+
+  int how = (int)r.range(0, 9);      // 0: default-construct then assign, 1: copy, else direct
+  std::unique_ptr<G> grid;
+  if (how == 0) {grid.reset(new G()); *grid = make_grid(g1);} else if (how == 1) {
+    G tmp = make_grid(g1);
+    if (r.coin()) {touch_centres<S, D>(tmp);}
+    grid.reset(new G(tmp));
+  } else {grid.reset(new G(make_grid(g1)));}
+
+  const bool reassign = r.coin(0.34);
+  // what the object has served before the re-assignment (always everything when there is none)
+  const int pre = reassign ? (int)r.range(0, 5) : 5;    // 0 nothing, 1 indexes, 2 centres, 3..5 all oracles
+  if (pre >= 3) {
+    check_grid<S, D>(c, r, tname, g1, *grid, how == 0 ? "default_constructed_then_assigned" :
+      how == 1 ? "copy_constructed" : "constructed", 0);
+  } else if (pre == 1) {touch_indexes<S, D>(*grid, g1);} else if (pre == 2) {touch_centres<S, D>(*grid);}
+
+  uint64_t h = g1.hash;
+  bool trivial = g1.trivial;
+  if (reassign) {
+    Cfg<S, D> g2;
+    int mode = (int)r.range(1, 9);
+    bool have = true;
+    if (mode == 9) {g2 = g1;} else {have = gen_cfg<S, D>(c, r, tname, g2);}
+    if (have) {
+      const char * phase = "";
+      switch (mode) {
+        case 1: case 2: case 3:
+          phase = "reassigned_from_fresh_temporary"; *grid = make_grid(g2); break;
+        case 4: {
+            phase = "reassigned_from_source_with_indexes_used";
+            G src = make_grid(g2); touch_indexes<S, D>(src, g2); *grid = src;
+          } break;
+        case 5: {
+            phase = "reassigned_from_source_with_centres_used";
+            G src = make_grid(g2); touch_centres<S, D>(src); *grid = src;
+          } break;
+        case 6: {
+            phase = "reassigned_from_checked_source";
+            G src = make_grid(g2);
+            check_grid<S, D>(c, r, tname, g2, src, "constructed", 0);
+            *grid = src;
+          } break;
+        case 7: {
+            phase = "reassigned_by_move";
+            G src = make_grid(g2);
+            if (r.coin()) {touch_centres<S, D>(src);}
+            *grid = std::move(src);
+          } break;
+        case 8: {
+            // two assignments in a row; the intermediate configuration is used or not
+            phase = "reassigned_twice";
+            Cfg<S, D> gm;
+            if (gen_cfg<S, D>(c, r, tname, gm)) {
+              *grid = make_grid(gm);
+              if (r.coin()) {touch_centres<S, D>(*grid);}
+            }
+            *grid = make_grid(g2);
+          } break;
+        default: {
+            phase = "reassigned_from_copy_of_itself";
+            G cp(*grid);
+            if (r.coin()) {touch_centres<S, D>(cp);}
+            *grid = cp;
+            G & self = *grid;
+            *grid = self;
+          }
+      }
+      c.cat("reassigned");
+      c.cat(phase);
+      c.cat(pre == 0 ? "reassigned_target_never_used" : pre == 1 ? "reassigned_target_indexes_used" :
+        pre == 2 ? "reassigned_target_centres_used" : "reassigned_target_fully_checked");
+      check_grid<S, D>(c, r, tname, g2, *grid, phase, mode);
+      h = vh::hash_addi(vh::hash_addi(h, g2.hash), (uint64_t)(mode * 8 + pre));
+      trivial = trivial && g2.trivial;
+    }
+  }
+  c.distinct(h, !trivial);
 }
 
 void one_case(vh::Ctx & c, uint64_t idx)
